@@ -1172,13 +1172,18 @@ where
         }
         let mut safe = self.safe.write().await;
         if let None = safe.active_blob {
-            let blob_opt = safe.blobs.write().await.pop();
-            if let Some(mut blob) = blob_opt {
-                // Active blob accepts new records, so its index must be held in memory
-                if let Err(e) = blob.load_index().await {
-                    safe.blobs.write().await.push(blob).await;
-                    return Err(e);
+            let mut blobs = safe.blobs.write().await;
+            // Active blob accepts new records, so its index must be held in memory.
+            // The index is loaded while the blob is still in the list of closed blobs: if loading fails
+            // or this future is dropped in the middle, the blob stays reachable
+            if let Some(last_id) = blobs.last_id() {
+                if let Some(last) = blobs.get_child_mut(last_id) {
+                    last.data.load_index().await?;
                 }
+            }
+            let blob_opt = blobs.pop();
+            drop(blobs);
+            if let Some(blob) = blob_opt {
                 safe.active_blob = Some(Box::new(ASRwLock::new(blob)));
                 Ok(())
             } else {
